@@ -48,8 +48,8 @@ condition cond_str(s: string) {
 condition cond_ip(ip: ipaddress) {
   ip.in_cidr("10.0.0.0/8")
 }
-condition cond_many(l: list<string>, m: map<int>, t: timestamp, d: duration, u: uint, f: double, b: bool, a: any, ll: list<list<map<string>>>) {
-  l.size() < 3 || m.size() > 1 || t > timestamp("2020-01-01T00:00:00Z") || d > duration("1s") || u > 1u || f > 1.0 || b || a == 1 || ll.size() > 0
+condition cond_many(l: list<string>, m: map<int>, t: timestamp, d: duration, u: uint, f: double, b: bool, ll: list<string>) {
+  l.size() < 3 || m.size() > 1 || t > timestamp("2020-01-01T00:00:00Z") || d > duration("1s") || u > 1u || f > 1.0 || b || ll.size() > 0
 }
 `
 
@@ -226,7 +226,7 @@ func someContext(r *prng) *structpb.Struct {
 	s, _ := structpb.NewStruct(map[string]any{
 		"x": float64(r.Intn(5) - 1), "s": pick(r, "abc", "zzz", ""), "ip": pick(r, "10.0.0.1", "192.168.0.1", "not-an-ip"),
 		"l": []any{"a", "b"}, "m": map[string]any{"k": 1.0}, "t": "2024-01-01T00:00:00Z", "d": "2s", "u": 3.0, "f": 1.5, "b": r.Bool(), "a": 1.0,
-		"ll": []any{[]any{map[string]any{"k": "v"}}},
+		"ll": []any{"x"},
 	})
 	return s
 }
